@@ -295,6 +295,7 @@ Inductive op :=
 | OTryInsert (k : K)                 (* HList::Insert / Get without assignment *)
 | ORemove (k : K)
 | ORemoveIndex (i : nat)
+| ORemoveAt (k : K)                  (* if GetKeyIndex(i, k): RemoveIndex(i) *)
 | ORename (from to : K)
 | OResize (n : nat)
 | OExpect (n : nat)
@@ -326,6 +327,11 @@ Definition step (o : op) (s : ht) : option (ht * out) :=
   | OTryInsert k => bind (get k s) (fun r => Some (fst r, ONone))
   | ORemove k => bind (remove k s) (fun s' => Some (s', ONone))
   | ORemoveIndex i => bind (remove_index i s) (fun s' => Some (s', ONone))
+  | ORemoveAt k => bind (get_key_index k s) (fun r =>
+                     match r with
+                     | Some i => bind (remove_index i s) (fun s' => Some (s', ONone))
+                     | None => Some (s, ONone)
+                     end)
   | ORename a b => bind (rename a b s) (fun r => Some (fst r, OBool (snd r)))
   | OResize n => bind (resize_pub n s) (fun s' => Some (s', ONone))
   | OExpect n => bind (expect n s) (fun s' => Some (s', ONone))
@@ -359,6 +365,7 @@ Definition sp_step (o : op) (st : alist * bool) : option (alist * bool * out) :=
   | OTryInsert k => Some (sp_getc l k, c, ONone)
   | ORemove k => Some (sp_remove l k, c && negb (sp_has l k), ONone)
   | ORemoveIndex i => if c then Some (sp_remove_nth l i, negb (i <? length l), ONone) else None
+  | ORemoveAt k => Some (sp_remove l k, c && negb (sp_has l k), ONone)
   | ORename a b => let r := sp_rename l a b in Some (fst r, c, OBool (snd r))
   | OResize n => if c || (length l =? 0) || (n =? 0) then Some (firstn n l, true, ONone) else None
   | OExpect n => Some (l, c, ONone)
@@ -418,8 +425,9 @@ Fixpoint key_eqb (a b : key) : bool :=
   | x :: a', y :: b' => (x =? y) && key_eqb a' b'
   | _, _ => false
   end.
-(* order of a signed char, as an order-preserving map into N *)
-Definition sbyte (u : N) : N := if u <? 128 then u + 128 else u - 128.
+(* order of a signed char, as an order-preserving map into N (injective on all of N;
+   code units >= 256 do not occur for Char_T = char) *)
+Definition sbyte (u : N) : N := if u <? 128 then u + 128 else if u <? 256 then u - 128 else u + 128.
 (* StringUtils::IsLess(..., orEqual = false) with the D3 fix: a proper prefix is less *)
 Fixpoint key_ltb (a b : key) : bool :=
   match a, b with
